@@ -355,6 +355,11 @@ func (dht *IpfsDHT) getValues(ctx context.Context, key string, stopQuery chan st
 					Val:  val,
 					From: p,
 				}:
+				case <-stopQuery:
+					// The search has reached its quorum and nobody reads valCh
+					// any more. Without this case a worker that answers now would
+					// block until the caller's context ends (never, for
+					// context.Background()), and the lookup with it.
 				case <-ctx.Done():
 					return nil, ctx.Err()
 				}
